@@ -310,6 +310,34 @@ with unsupported_variant : variant -> sval -> err -> Prop :=
 
 Definition supported (t : ty) (v : sval) : Prop := forall e, ~ unsupported CElem t v e.
 
+(* ---- the document root --------------------------------------------------------------------------------
+   A TOML document is a table.  `table_shaped t v`: the value is written as a table — a struct, a
+   map, or a newtype / tuple / struct variant (a one-entry table), possibly behind Some / newtype
+   structs.  toml::to_string looks at the root value itself first: a struct variant there is
+   refused by name, a tuple variant is written as a bare array (hence refused as a non-table), and
+   a Datetime is written as the table { "$__toml_private_datetime" = "<text>" } (known class
+   private-datetime-key). *)
+Fixpoint table_shaped (t : ty) (v : sval) {struct t} : bool :=
+  match t, v with
+  | TOpt t', SSome v' => table_shaped t' v'
+  | TNewtype _ t', SNewtype v' => table_shaped t' v'
+  | TMap _ _, SMap _ => true
+  | TStruct _ _, SRec _ => true
+  | TEnum _ vs, SVariant i _ => pick (fun nv => match snd nv with VUnit => false | _ => true end) false vs i
+  | _, _ => false
+  end.
+
+Definition toml_root_shaped (t : ty) (v : sval) : bool :=
+  match t, v with
+  | TDatetime _, SDt _ => true
+  | TEnum _ vs, SVariant i _ => pick (fun nv => match snd nv with VNewtype _ => true | _ => false end) false vs i
+  | _, _ => table_shaped t v
+  end.
+
+(* the root value is a struct variant of the enum called n *)
+Definition root_struct_variant (t : ty) (v : sval) (n : bytes) : Prop :=
+  exists vs i p vn fs, t = TEnum n vs /\ v = SVariant i p /\ nth_error vs i = Some (vn, VStruct fs).
+
 (* ---- induction principle for the nested mutual type ------------------------------------------------ *)
 Section TyInd.
   Variable P : ty -> Prop.
